@@ -39,10 +39,10 @@ macro_rules! backend_cases2 {
                 let (krin, krout, ksize, kb2k, dnum, dsize) =
                     (kv.g("krin"), kv.g("krout"), kv.g("ksize"), kv.g("kb2k"), kv.g("dnum"), kv.g("dsize"));
                 let big_scratch = || -> ScratchOwned<BE> { ScratchOwned::<BE>::alloc(1 << 23) };
+                let tb: usize = crate::cmd_scratch::$modname::tb_of(&module, op, kv)?;
 
                 macro_rules! finish {
                     ($tb:expr, $f:expr) => {{
-                        let tb: usize = $tb;
                         let o = exec_window::<Scratch<BE>>(tb, mis, win, wrap, $f);
                         return Some(fmt_outcome(tb, &o));
                     }};
@@ -85,14 +85,14 @@ macro_rules! backend_cases2 {
                         if op == "glwe_keyswitch" {
                             let a = rand_glwe(n, ab2k, asize, arank, 5);
                             let res_infos = glwe_layout(n, b2k, size, rank);
-                            finish!(module.glwe_keyswitch_tmp_bytes(&res_infos, &a, &ksk_infos), |s: &mut Scratch<BE>| {
+                            finish!(tb, |s: &mut Scratch<BE>| {
                                 let mut r = GLWE::alloc_from_infos(&res_infos);
                                 module.glwe_keyswitch(&mut r, &a, &kp, s);
                                 bytes_of_i64(r.data().raw())
                             })
                         }
                         let a = rand_glwe(n, b2k, size, rank, 5);
-                        finish!(module.glwe_keyswitch_tmp_bytes(&a, &a, &ksk_infos), |s: &mut Scratch<BE>| {
+                        finish!(tb, |s: &mut Scratch<BE>| {
                             let mut r = a.clone();
                             module.glwe_keyswitch_assign(&mut r, &kp, s);
                             bytes_of_i64(r.data().raw())
@@ -112,7 +112,7 @@ macro_rules! backend_cases2 {
                         let mut pt = ScalarZnx::alloc(n, 1);
                         pt.raw_mut()[n / 2] = 1;
                         if op == "ggsw_encrypt_sk" {
-                            finish!(module.ggsw_encrypt_sk_tmp_bytes(&ggsw_infos), |s: &mut Scratch<BE>| {
+                            finish!(tb, |s: &mut Scratch<BE>| {
                                 let mut g: GGSW<Vec<u8>> = GGSW::alloc_from_infos(&ggsw_infos);
                                 module.ggsw_encrypt_sk(
                                     &mut g,
@@ -147,9 +147,7 @@ macro_rules! backend_cases2 {
                         if op == "glwe_external_product" {
                             let a = rand_glwe(n, ab2k, asize, arank, 5);
                             let res_infos = glwe_layout(n, b2k, size, rank);
-                            finish!(
-                                module.glwe_external_product_tmp_bytes(&res_infos, &a, &ggsw_infos),
-                                |s: &mut Scratch<BE>| {
+                            finish!(tb, |s: &mut Scratch<BE>| {
                                     let mut r = GLWE::alloc_from_infos(&res_infos);
                                     module.glwe_external_product(&mut r, &a, &gp, s);
                                     bytes_of_i64(r.data().raw())
@@ -157,7 +155,7 @@ macro_rules! backend_cases2 {
                             )
                         }
                         let a = rand_glwe(n, b2k, size, rank, 5);
-                        finish!(module.glwe_external_product_tmp_bytes(&a, &a, &ggsw_infos), |s: &mut Scratch<BE>| {
+                        finish!(tb, |s: &mut Scratch<BE>| {
                             let mut r = a.clone();
                             module.glwe_external_product_assign(&mut r, &gp, s);
                             bytes_of_i64(r.data().raw())
@@ -177,7 +175,7 @@ macro_rules! backend_cases2 {
                         let (_, skp) = mk_sk(krout, 1);
                         let mut pt = ScalarZnx::alloc(n, krin);
                         pt.raw_mut().iter_mut().enumerate().for_each(|(i, x)| *x = (i % 3) as i64 - 1);
-                        finish!(module.gglwe_encrypt_sk_tmp_bytes(&infos), |s: &mut Scratch<BE>| {
+                        finish!(tb, |s: &mut Scratch<BE>| {
                             let mut g: GGLWE<Vec<u8>> = GGLWE::alloc_from_infos(&infos);
                             module.gglwe_encrypt_sk(
                                 &mut g,
@@ -191,8 +189,16 @@ macro_rules! backend_cases2 {
                             bytes_of_i64(g.data().raw())
                         })
                     }
-                    "glwe_automorphism" | "glwe_automorphism_assign" | "glwe_automorphism_add" | "glwe_automorphism_add_assign"
-                    | "glwe_trace" | "glwe_trace_assign" => {
+                    "glwe_automorphism"
+                    | "glwe_automorphism_assign"
+                    | "glwe_automorphism_add"
+                    | "glwe_automorphism_add_assign"
+                    | "glwe_automorphism_sub"
+                    | "glwe_automorphism_sub_assign"
+                    | "glwe_automorphism_sub_negate"
+                    | "glwe_automorphism_sub_negate_assign"
+                    | "glwe_trace"
+                    | "glwe_trace_assign" => {
                         let key_infos = EncryptionLayout::new_from_default_sigma(GLWEAutomorphismKeyLayout {
                             n: Degree(n as u32),
                             base2k: Base2K(kb2k as u32),
@@ -229,14 +235,14 @@ macro_rules! backend_cases2 {
                             let skip = log_n - kv.g("iters").min(log_n);
                             if op == "glwe_trace" {
                                 let a = rand_glwe(n, ab2k, asize, arank, 5);
-                                finish!(module.glwe_trace_tmp_bytes(&res_infos, &a, &key_infos), |s: &mut Scratch<BE>| {
+                                finish!(tb, |s: &mut Scratch<BE>| {
                                     let mut r = GLWE::alloc_from_infos(&res_infos);
                                     module.glwe_trace(&mut r, skip, &a, &keys, s);
                                     bytes_of_i64(r.data().raw())
                                 })
                             }
                             let a = rand_glwe(n, b2k, size, rank, 5);
-                            finish!(module.glwe_trace_tmp_bytes(&a, &a, &key_infos), |s: &mut Scratch<BE>| {
+                            finish!(tb, |s: &mut Scratch<BE>| {
                                 let mut r = a.clone();
                                 module.glwe_trace_assign(&mut r, skip, &keys, s);
                                 bytes_of_i64(r.data().raw())
@@ -244,26 +250,28 @@ macro_rules! backend_cases2 {
                         }
                         let kp = mk_key(-1);
                         match op {
-                            "glwe_automorphism" | "glwe_automorphism_add" => {
+                            "glwe_automorphism" | "glwe_automorphism_add" | "glwe_automorphism_sub" | "glwe_automorphism_sub_negate" => {
                                 let a = rand_glwe(n, ab2k, asize, arank, 5);
-                                finish!(module.glwe_automorphism_tmp_bytes(&res_infos, &a, &key_infos), |s: &mut Scratch<BE>| {
+                                finish!(tb, |s: &mut Scratch<BE>| {
                                     let mut r = rand_glwe(n, b2k, size, rank, 6);
-                                    if op == "glwe_automorphism" {
-                                        module.glwe_automorphism(&mut r, &a, &kp, s);
-                                    } else {
-                                        module.glwe_automorphism_add(&mut r, &a, &kp, s);
+                                    match op {
+                                        "glwe_automorphism" => module.glwe_automorphism(&mut r, &a, &kp, s),
+                                        "glwe_automorphism_add" => module.glwe_automorphism_add(&mut r, &a, &kp, s),
+                                        "glwe_automorphism_sub" => module.glwe_automorphism_sub(&mut r, &a, &kp, s),
+                                        _ => module.glwe_automorphism_sub_negate(&mut r, &a, &kp, s),
                                     }
                                     bytes_of_i64(r.data().raw())
                                 })
                             }
                             _ => {
                                 let a = rand_glwe(n, b2k, size, rank, 5);
-                                finish!(module.glwe_automorphism_tmp_bytes(&a, &a, &key_infos), |s: &mut Scratch<BE>| {
+                                finish!(tb, |s: &mut Scratch<BE>| {
                                     let mut r = a.clone();
-                                    if op == "glwe_automorphism_assign" {
-                                        module.glwe_automorphism_assign(&mut r, &kp, s);
-                                    } else {
-                                        module.glwe_automorphism_add_assign(&mut r, &kp, s);
+                                    match op {
+                                        "glwe_automorphism_assign" => module.glwe_automorphism_assign(&mut r, &kp, s),
+                                        "glwe_automorphism_add_assign" => module.glwe_automorphism_add_assign(&mut r, &kp, s),
+                                        "glwe_automorphism_sub_assign" => module.glwe_automorphism_sub_assign(&mut r, &kp, s),
+                                        _ => module.glwe_automorphism_sub_negate_assign(&mut r, &kp, s),
                                     }
                                     bytes_of_i64(r.data().raw())
                                 })
